@@ -179,6 +179,10 @@ func H_C12_string() {
 	if vrtTier() == 0 && n == 3 {
 		mode = smUTF8 | (0x41 << 2) // quick: three code points only in the 1-byte class and the 3-byte class that holds U+FFFD
 	}
+	if n <= 2 {
+		// every class of UTF-8 lead byte (C2..DF, E0, E1..EC, ED, EE..EF, F0, F1..F3, F4)
+		mode = smUTF8 | (0x1ff << 2)
+	}
 	s := vrtStrN("s", n, mode)
 	k := vrtChoose("pattern", len(c12Patterns))
 	expr, start, stop, step, hasStart, hasStop := c12Template(k)
